@@ -116,7 +116,8 @@ class M(Model):
         return out
 
     # ------------------------------------------------------------------ C08
-    def objective(self, ep):
+    # not registered with the drivers: this environment is outside the property's enumerated list
+    def unused_objective(self, ep):
         if not ep.states:
             return 0.0, 1e-6
         f = ep.states[-1]
